@@ -70,6 +70,12 @@ def okOff (b : Bool) : String := if b then "ok" else "off"
 def specOr (dom : Bool) (s : Option String) : String :=
   if dom then s.getD "any" else "any"
 
+/-- the tolerance the property statement names (1e-9).  `M` (raw) is computed with the EPS extracted from the
+    source, so that it can be compared bit for bit with the crate; the spec-level *view* of the model is taken at
+    the property's tolerance — the instance of the (eps-generic) theorems the property is about.  The two coincide
+    unless util.rs changes EPS, and then the crate's answers are judged against the property, not against itself. -/
+def propEps : Float := Float.ofBits 0x3e112e0be826d695
+
 def handle (line : String) : String :=
   match tokens line with
   | "cl" :: mode :: e :: t1 :: t2 :: t3 :: rest =>
@@ -79,11 +85,12 @@ def handle (line : String) : String :=
       match parseLine G rest with
       | some (l, []) =>
         let res := intersectCL G ⟨⟨cx, cy⟩, r⟩ l.fl
+        let resP := intersectCL (floatGeo propEps) ⟨⟨cx, cy⟩, r⟩ l.fl
         let qc : QCircle := ⟨⟨qOf cx, qOf cy⟩, qOf r⟩
         let dom := l.dom && coordOk cx && coordOk cy && radiusOk r
-        if mode = "K" then answer3 (showCL res) res.kind (specOr dom (specKindCL qc l.q))
+        if mode = "K" then answer3 (showCL res) resP.kind (specOr dom (specKindCL qc l.q))
         else if mode = "P" then
-          answer3 (showCL res) (okOff (allNear res.points fun p => nearCircle qc p && nearLine l.q p)) (if dom then "ok" else "any")
+          answer3 (showCL res) (okOff (allNear resP.points fun p => nearCircle qc p && nearLine l.q p)) (if dom then "ok" else "any")
         else badLine line
       | _ => badLine line
     | _, _, _, _ => badLine line
@@ -92,15 +99,16 @@ def handle (line : String) : String :=
     | some eps, some [ax, ay, ar, bx, by', br] =>
       let G := floatGeo eps
       let res := intersectCC G ⟨⟨ax, ay⟩, ar⟩ ⟨⟨bx, by'⟩, br⟩
+      let resP := intersectCC (floatGeo propEps) ⟨⟨ax, ay⟩, ar⟩ ⟨⟨bx, by'⟩, br⟩
       let qa : QCircle := ⟨⟨qOf ax, qOf ay⟩, qOf ar⟩
       let qb : QCircle := ⟨⟨qOf bx, qOf by'⟩, qOf br⟩
       let d2 := qDist2 qa.c qb.c
       -- centres coincide exactly or are well separated
       let dom := coordOk ax && coordOk ay && coordOk bx && coordOk by' && radiusOk ar && radiusOk br
         && (d2.isZero || (Q.tenPowNeg 2).le d2)
-      if mode = "K" then answer3 (showCC res) res.kind (specOr dom (specKindCC qa qb))
+      if mode = "K" then answer3 (showCC res) resP.kind (specOr dom (specKindCC qa qb))
       else if mode = "P" then
-        answer3 (showCC res) (okOff (allNear res.points fun p => nearCircle qa p && nearCircle qb p)) (if dom then "ok" else "any")
+        answer3 (showCC res) (okOff (allNear resP.points fun p => nearCircle qa p && nearCircle qb p)) (if dom then "ok" else "any")
       else badLine line
     | _, _ => badLine line
   | "ll" :: mode :: e :: rest =>
@@ -112,19 +120,20 @@ def handle (line : String) : String :=
         match parseLine G rest2 with
         | some (v, []) =>
           let res := intersectLL G u.fl v.fl
+          let resP := intersectLL (floatGeo propEps) u.fl v.fl
           let par := parallel G u.fl v.fl
           let raw := (match res with
             | none => "None"
             | some p => "Some " ++ showPoint p) ++ " par=" ++ showBool par
           let dom := u.dom && v.dom
           if mode = "K" then
-            answer3 raw (match res with | none => "None" | some _ => "Some") (specOr dom (specKindLL u.q v.q))
+            answer3 raw (llKind resP) (specOr dom (specKindLL u.q v.q))
           else if mode = "P" then
             -- well-conditioned: |sin| ≥ 1e-2 and the exact intersection point within the coordinate range
             let (pt, det) := specPointLL u.q v.q
             let wc := (Q.tenPowNeg 4 * (u.q.n2 * v.q.n2)).le det.sq
               && pt.x.abs.le (thousand * det.abs) && pt.y.abs.le (thousand * det.abs)
-            answer3 raw (okOff (allNear res.toList fun p => nearLine u.q p && nearLine v.q p))
+            answer3 raw (okOff (allNear resP.toList fun p => nearLine u.q p && nearLine v.q p))
               (if dom && wc then "ok" else "any")
           else badLine line
         | _ => badLine line
@@ -135,8 +144,9 @@ def handle (line : String) : String :=
     | some eps, some [cx, cy, r, px, py] =>
       let G := floatGeo eps
       let res := (position G ⟨⟨cx, cy⟩, r⟩ ⟨px, py⟩).toString
+      let resP := (position (floatGeo propEps) ⟨⟨cx, cy⟩, r⟩ ⟨px, py⟩).toString
       let dom := coordOk cx && coordOk cy && radiusOk r && coordOk px && coordOk py
-      answer3 res res (specOr dom (specPosition ⟨⟨qOf cx, qOf cy⟩, qOf r⟩ ⟨qOf px, qOf py⟩))
+      answer3 res resP (specOr dom (specPosition ⟨⟨qOf cx, qOf cy⟩, qOf r⟩ ⟨qOf px, qOf py⟩))
     | _, _ => badLine line
   | "con" :: e :: rest =>
     match parseNum? e with
@@ -147,8 +157,9 @@ def handle (line : String) : String :=
         match parseNum? t1, parseNum? t2 with
         | some px, some py =>
           let res := showBool (lineContains G l.fl ⟨px, py⟩)
+          let resP := showBool (lineContains (floatGeo propEps) l.fl ⟨px, py⟩)
           let dom := l.dom && coordOk px && coordOk py
-          answer3 (res ++ " " ++ showNum (lineDist G l.fl ⟨px, py⟩)) res (specOr dom (specContains l.q ⟨qOf px, qOf py⟩))
+          answer3 (res ++ " " ++ showNum (lineDist G l.fl ⟨px, py⟩)) resP (specOr dom (specContains l.q ⟨qOf px, qOf py⟩))
         | _, _ => badLine line
       | _ => badLine line
     | none => badLine line
